@@ -182,7 +182,7 @@ def run_check(prop, tier, seed, keep=False):
     from concurrent.futures import ThreadPoolExecutor
     mc_future = None
     mcname = spec.get("mc_deep") if tier == "thorough" and spec.get("mc_deep") else spec.get("mc")
-    if mcname and os.path.exists(os.path.join(driver.SPEC, mcname + ".cfg")):
+    if mcname and os.path.exists(os.path.join(driver.SPEC, mcname + ".cfg")) and not os.environ.get("VERIF_NOMC"):
         mcmod = spec.get("mc_module", "MC_core3")
         mc_pool = ThreadPoolExecutor(max_workers=1)
         mc_future = mc_pool.submit(driver.model_check, mcname, workdir, TIER[tier]["mc_timeout"], max(2, driver.NPROC // 2), ("Raft.tla",), None, 0, mcmod)
